@@ -190,7 +190,10 @@ Inductive site :=
 | HUnhashable      (* mapDecoder.decodeMap: UnsafeSetIndex with a slice / map / []byte key in map[interface{}] *)
 | HRefNilSet       (* ReadReference of the nil the client codec registered, into interface{}: assignTo, reflect Set of a zero Value *)
 | HRefNilKind      (* the same into another type: GetConverter calls src.Kind() on a nil reflect.Type *)
-| HObjMapField.    (* mapDecoder.decodeObjectAsMap: fields[name] missing -> field.Type is nil *)
+| HObjMapField     (* mapDecoder.decodeObjectAsMap: fields[name] missing -> field.Type is nil *)
+| HObjMapKey       (* mapDecoder.decodeObjectAsMap into map[interface{}]..: the key pointer is a *string, read as an
+                      interface{} header: memory corruption, the runtime dies (fatal error, not a panic) *)
+| HClientCount.    (* clientCodec.Decode: for i := count; i < n; i++ { results[i] = .. } with count < 0 *)
 
 (* texts handed to library parsers: answered by a finite table per case (DESIGN 3: oracles) *)
 Inductive okind :=
@@ -238,7 +241,6 @@ Definition hashable (v : aval) : bool :=
 Definition ek_of (e : errk) : ek := match e with EEOF => KEOF | EInvalidUTF8 => KUtf8 end.
 Definition merge (old : option ek) (new : option errk) : option ek :=
   match old with Some _ => old | None => option_map ek_of new end.
-Definition consumed (s : st) (r : bytes) : N := N.of_nat (length (rest s) - length r).
 
 (* dec.NextByte() *)
 Definition next_byte (s : st) : byte * st :=
@@ -248,31 +250,38 @@ Definition skip1 (s : st) : st :=
   let '(r, e) := s_skip (rest s, None) in set_rest s r (merge (err s) e) 1.
 (* dec.ReadInt() / ReadInt64() / ReadUint64(): same bytes consumed *)
 Definition read_int (s : st) : Z * st :=
-  let '(z, (r, e)) := s_readInt64 (rest s, None) in (z, set_rest s r (merge (err s) e) (1 + consumed s r)).
+  let '(z, (r, e)) := s_readInt64 (rest s, None) in (z, set_rest s r (merge (err s) e) 1).
 (* dec.Until(';') / UnsafeUntil(';') *)
 Definition semi : byte := x3b.
 Definition until_semi (s : st) : bytes * st :=
   let '(x, (r, e)) := s_until semi (rest s, None) in
-  (match x with Some t => t | None => [] end, set_rest s r (merge (err s) e) (1 + consumed s r)).
+  (match x with Some t => t | None => [] end, set_rest s r (merge (err s) e) 1).
+
+(* n <= length l, walking at most n cells *)
+Fixpoint fits (l : bytes) (n : Z) : bool :=
+  if (n <=? 0)%Z then true else match l with [] => false | _ :: r => fits r (n - 1) end.
 
 Definition max_alloc : N := 281474976710656.     (* runtime maxAlloc on linux/amd64: 1<<48 *)
 
 (* dec.next(n): the bytes, or the panic of dec.buf[head:head+n] for n < 0.  When the input is
    shorter than n the tree's code first does make([]byte, remain, n). *)
 Definition next_n (fx : fixes) (n : Z) (s : st) : out (option bytes) :=
-  match s_next n (rest s, None) with
-  | Panic _ => RHaz HNextNeg s (ROk None (set_error s KDecode))
-  | OutOfFuel => RFuel
-  | Ok (x, (r, e)) =>
-    let s1 := set_rest s r (merge (err s) e) (1 + consumed s r) in
-    let short := match rest s with [] => false | _ => (Z.of_nat (length (rest s)) <? n)%Z end in
-    if short then
-      let ex := Z.to_N (n - Z.of_nat (length (rest s))) in
-      if fx_next fx then ROk x (add_excess s1 ex)
-      else if (max_alloc <? Z.to_N n)%N then RHaz (HAllocRange MNext) s (ROk x (add_excess s1 ex))
-      else ROk x (add_excess (add_alloc s1 (Z.to_N n)) ex)
-    else ROk x s1
+  match rest s with
+  | [] => ROk None (set_rest s [] (merge (err s) (Some EEOF)) 1)
+  | w =>
+    if (n <? 0)%Z then RHaz HNextNeg s (ROk None (set_error s KDecode))
+    else if fits w n then
+      let k := Z.to_nat n in ROk (Some (firstn k w)) (set_rest s (skipn k w) (err s) 1)
+    else
+      (* remain < n: data = make([]byte, remain, n); copy; loadMore fails: everything left, io.EOF *)
+      let s1 := set_rest s [] (merge (err s) (Some EEOF)) 1 in
+      let ex := Z.to_N (n - Z.of_nat (length w)) in
+      if fx_next fx then ROk (Some w) (add_excess s1 ex)
+      else if (max_alloc <? Z.to_N n)%N then RHaz (HAllocRange MNext) s (ROk (Some w) (add_excess s1 ex))
+      else ROk (Some w) (add_excess (add_alloc s1 (Z.to_N n)) ex)
   end.
+(* = s_next of Model/DecStream.v wherever that is computable (next_n_spec in Proofs/DecBytesProofs.v);
+   written with [fits] so that an announced length of 10^11 is not turned into a unary number *)
 
 (* int arithmetic of Go: utf16Length*3 in a 64-bit int *)
 Definition two63 : Z := 9223372036854775808.
@@ -351,10 +360,10 @@ Definition read_bytes (fx : fixes) (s : st) : out (option bytes) :=
 (* ReadTime / ReadDateTime: fixed digit fields through NextByte; time.Date normalises anything *)
 Definition read_time (s : st) : st :=
   let '(_, _, (r, e)) := s_readHMS (rest s, None) in
-  add_ref (set_rest s r (merge (err s) e) (1 + consumed s r)) RTime.
+  add_ref (set_rest s r (merge (err s) e) 1) RTime.
 Definition read_datetime (s : st) : st :=
   let '(_, _, (r, e)) := s_readDateTime (rest s, None) in
-  add_ref (set_rest s r (merge (err s) e) (1 + consumed s r)) RTime.
+  add_ref (set_rest s r (merge (err s) e) 1) RTime.
 (* a time read into a time.Time destination (readTime(p), then refer.Add unless simple) has the same effect *)
 
 Section Oracle.
@@ -475,12 +484,15 @@ Fixpoint reg_lookup (nm : bytes) (l : list (bytes * shape)) : option shape :=
 (* a count read from the wire, about to size an allocation of [per] bytes per element at site [m].
    Result: the count the loop will run to. *)
 Definition counted (m : msite) (per : N) (negpanics : bool) (n : Z) (s : st) : out Z :=
-  let left := Z.of_nat (length (rest s)) in
   if (n <? 0)%Z then
     if negpanics then RHaz (HMakeNeg m) s (ROk 0%Z (set_error s KDecode))
     else if fx_neg fx then ROk 0%Z (set_error s KDecode) else ROk n s
-  else if fx_count fx && (left <? n)%Z then ROk 0%Z (set_error s KDecode)
-  else if (max_alloc <? Z.to_N n * per)%N then RHaz (HAllocRange m) s (ROk 0%Z (set_error s KDecode))
+  else if fx_count fx && negb (fits (rest s) n) then ROk 0%Z (set_error s KDecode)
+  else if (max_alloc <? Z.to_N n * per)%N then
+    match m with
+    | MMap => ROk n s           (* makemap: overflow || mem > maxAlloc -> hint = 0 *)
+    | _ => RHaz (HAllocRange m) s (ROk 0%Z (set_error s KDecode))
+    end
   else ROk n (add_alloc s (Z.to_N n * per)).
 
 (* for i := 0; i < n; i++ { body }   -- k bounds the iterations that can still consume input *)
@@ -492,7 +504,6 @@ Fixpoint loop (k : nat) (body : st -> out unit) (per : N) (n : Z) (s : st) : out
        | O => RFuel
        | S k' => bnd (body s) (fun _ s1 => loop k' body per (n - 1) s1)
        end.
-Definition loop_fuel (s : st) : nat := S (S (length (rest s))).
 
 (* for _, name := range structInfo.names { body(name) } *)
 Fixpoint iter_names (body : bytes -> st -> out unit) (per : N) (l : list bytes) (s : st) : out unit :=
@@ -503,9 +514,9 @@ Fixpoint iter_names (body : bytes -> st -> out unit) (per : N) (l : list bytes) 
     else if fx_loop fx && has_err s then ROk tt (add_excess s (N.of_nat (length l)))
     else bnd (body nm s) (fun _ s1 => iter_names body per r s1)
   end.
-Definition over_names (body : bytes -> st -> out unit) (per : N) (c : cinfo) (s : st) : out unit :=
+Definition over_names (lf : nat) (body : bytes -> st -> out unit) (per : N) (c : cinfo) (s : st) : out unit :=
   bnd (iter_names body per (cnames c) s) (fun _ s1 =>
-  loop (loop_fuel s1) (body []) per (Z.of_N (cextra c)) s1).
+  loop lf (body []) per (Z.of_N (cextra c)) s1).
 
 (* what a decode into [sh] allocates when the input is exhausted (tag 0): pointer targets *)
 Fixpoint stuck_alloc (sh : shape) : N :=
@@ -517,6 +528,7 @@ Section Body.
 (* dec_val at lower fuel: NextByte, then decode; dec_tag at lower fuel: decode with a tag in hand *)
 Variable rv : shape -> st -> out aval.
 Variable rt : shape -> byte -> st -> out aval.
+Variable lf : nat.      (* bound on the iterations of one loop that can still consume input: the fuel left *)
 
 Definition unit_of (r : out aval) : out unit := bnd r (fun _ s => ROk tt s).
 
@@ -537,7 +549,7 @@ Definition read_struct (sh : shape) (s : st) : out unit :=
   bnd (read_string_body fx s) (fun name s1 =>
   let '(n, s2) := read_int s1 in
   bnd (counted MNames 16 true n s2) (fun n' s3 =>
-  bnd (names_loop (loop_fuel s3) n' [] s3) (fun '(names, extra) s4 =>
+  bnd (names_loop lf n' [] s3) (fun '(names, extra) s4 =>
   let s5 := skip1 s4 in
   let ty := match reg_lookup name registry with
             | Some t => Some t
@@ -570,10 +582,10 @@ Definition read_object (s : st) : out aval :=
   match ctype c with
   | None =>
     let s2 := add_ref (add_alloc s1 (48 * (N.of_nat (length (cnames c)) + cextra c))) RMapSI in
-    bnd (over_names (fun _ x => unit_of (rv SIface x)) 0 c s2) (fun _ s3 => ROk (AOther false) (skip1 s3))
+    bnd (over_names lf (fun _ x => unit_of (rv SIface x)) 0 c s2) (fun _ s3 => ROk (AOther false) (skip1 s3))
   | Some t =>
     let s2 := add_ref (add_alloc s1 (size t)) (RPtr t) in
-    bnd (over_names (decode_field (struct_fields t)) 0 c s2) (fun _ s3 => ROk (AOther true) (skip1 s3))
+    bnd (over_names lf (decode_field (struct_fields t)) 0 c s2) (fun _ s3 => ROk (AOther true) (skip1 s3))
   end).
 
 (* dec.decodeError(t, tag) *)
@@ -606,7 +618,7 @@ Definition list_iface (s : st) : out aval :=
   bnd (counted MSlice 16 false n s1) (fun n' s2 =>
   let s3 := if (n' <? 0)%Z then set_corrupt s2 else s2 in
   let s4 := add_ref s3 (RPtr (SSlice SIface)) in
-  bnd (loop (loop_fuel s4) (fun x => unit_of (rv SIface x)) 0 n' s4) (fun _ s5 =>
+  bnd (loop lf (fun x => unit_of (rv SIface x)) 0 n' s4) (fun _ s5 =>
   ROk (AOther false) (skip1 s5))).
 
 Fixpoint map_loop (k : nat) (ks vs : shape) (per : N) (n : Z) (acc : list (bytes * aval)) (s : st)
@@ -634,7 +646,7 @@ Definition decode_map (ks vs : shape) (s : st) : out aval :=
   let fixed_neg := if (n <? 0)%Z && fx_neg fx then set_error s1 KDecode else s1 in
   bnd (counted MMap (map_entry ks vs) false (Z.max n 0) fixed_neg) (fun n' s2 =>
   let s3 := add_ref s2 (RPtr (SMap ks vs)) in
-  bnd (map_loop (loop_fuel s3) ks vs (stuck_alloc ks + stuck_alloc vs) n' [] s3) (fun kvs s4 =>
+  bnd (map_loop lf ks vs (stuck_alloc ks + stuck_alloc vs) n' [] s3) (fun kvs s4 =>
   ROk (match ks with SString => AMap kvs | _ => AOther false end) (skip1 s4))).
 
 Definition dec_iface (tag : byte) (s : st) : out aval :=
@@ -708,7 +720,7 @@ Definition uint8_slice (s : st) : out aval :=
   let '(n, s1) := read_int s in
   bnd (counted MUint8 1 true n s1) (fun n' s2 =>
   let s3 := add_ref s2 (RBytes None) in
-  bnd (loop (loop_fuel s3) (fun x => unit_of (rv (SNum (KUint 8)) x)) 0 n' s3) (fun _ s4 =>
+  bnd (loop lf (fun x => unit_of (rv (SNum (KUint 8)) x)) 0 n' s3) (fun _ s4 =>
   ROk (AOther false) (skip1 s4))).
 
 Definition dec_bytes (tag : byte) (s : st) : out aval :=
@@ -777,7 +789,7 @@ Definition dec_slice (e : shape) (tag : byte) (s : st) : out aval :=
     bnd (counted MSlice (size e) false n s1) (fun n' s2 =>
     let s3 := if (n' <? 0)%Z then set_corrupt s2 else s2 in    (* UnsafeGrow: header.Len = count *)
     let s4 := add_ref s3 (RPtr sh) in
-    bnd (loop (loop_fuel s4) (fun x => unit_of (rv e x)) (stuck_alloc e) n' s4) (fun _ s5 =>
+    bnd (loop lf (fun x => unit_of (rv e x)) (stuck_alloc e) n' s4) (fun _ s5 =>
     ROk (AOther false) (skip1 s5)))
   else default_decode sh tag s.
 
@@ -792,8 +804,8 @@ Definition dec_array_list (n : nat) (e : shape) (s : st) : out aval :=
     else ROk (AOther true) (skip1 (if Nat.eqb n 0 then s2 else set_corrupt s2))
   else
     let m := Z.min (Z.of_nat n) c in
-    bnd (loop (loop_fuel s2) body (stuck_alloc e) m s2) (fun _ s3 =>
-    bnd (loop (loop_fuel s3) body (stuck_alloc e) (c - m) s3) (fun _ s4 =>
+    bnd (loop lf body (stuck_alloc e) m s2) (fun _ s3 =>
+    bnd (loop lf body (stuck_alloc e) (c - m) s3) (fun _ s4 =>
     ROk (AOther true) (skip1 s4))).
 
 Definition is_u8 (e : shape) : bool := match e with SNum (KUint 8) => true | _ => false end.
@@ -828,7 +840,7 @@ Definition dec_map (ks vs : shape) (tag : byte) (s : st) : out aval :=
       let fixed_neg := if (n <? 0)%Z && fx_neg fx then set_error s1 KDecode else s1 in
       bnd (counted MMap (map_entry ks vs) false (Z.max n 0) fixed_neg) (fun n' s2 =>
       let s3 := add_ref s2 (RPtr sh) in
-      bnd (loop (loop_fuel s3) (fun x => unit_of (rv vs x)) (map_entry ks vs + stuck_alloc vs) n' s3) (fun _ s4 =>
+      bnd (loop lf (fun x => unit_of (rv vs x)) (map_entry ks vs + stuck_alloc vs) n' s3) (fun _ s4 =>
       ROk (AOther false) (skip1 s4)))
     else decode_error tag s
   else if tag_is tag "o" then
@@ -836,16 +848,18 @@ Definition dec_map (ks vs : shape) (tag : byte) (s : st) : out aval :=
       get_class s (fun c s1 =>
       let cnt := (N.of_nat (length (cnames c)) + cextra c)%N in
       let s2 := add_ref (add_alloc s1 (cnt * map_entry ks vs)) (RPtr sh) in
+      let guard (r : out aval) := match ks with SIface => if (0 <? cnt)%N then RHaz HObjMapKey s2 r else r | _ => r end in
+      guard
       match ctype c with
       | Some t =>
         let f := struct_fields t in
-        bnd (over_names (fun nm x =>
+        bnd (over_names lf (fun nm x =>
                match flookup nm f with
                | Some fs => unit_of (rv fs (add_alloc x (size fs)))
                | None => RHaz HObjMapField x (unit_of (rv SIface x))
                end) 0 c s2) (fun _ s3 => ROk (AOther false) (skip1 s3))
       | None =>
-        bnd (over_names (fun _ x => unit_of (rv SIface x)) 0 c s2) (fun _ s3 => ROk (AOther false) (skip1 s3))
+        bnd (over_names lf (fun _ x => unit_of (rv SIface x)) 0 c s2) (fun _ s3 => ROk (AOther false) (skip1 s3))
       end)
     else decode_error tag s
   else default_decode sh tag s.
@@ -856,11 +870,11 @@ Definition dec_struct (nm : bytes) (f : fields) (tag : byte) (s : st) : out aval
   if tag_is tag "o" then
     get_class s (fun c s1 =>
     let s2 := add_ref s1 (RPtr sh) in
-    bnd (over_names (decode_field f) 0 c s2) (fun _ s3 => ROk (AOther true) (skip1 s3)))
+    bnd (over_names lf (decode_field f) 0 c s2) (fun _ s3 => ROk (AOther true) (skip1 s3)))
   else if tag_is tag "m" then
     let '(n, s1) := read_int s in
     let s2 := add_ref s1 (RPtr sh) in
-    bnd (loop (loop_fuel s2) (fun x => bnd (rv SString x) (fun v x1 => decode_field f (str_of v) x1)) 0 n s2) (fun _ s3 =>
+    bnd (loop lf (fun x => bnd (rv SString x) (fun v x1 => decode_field f (str_of v) x1)) 0 n s2) (fun _ s3 =>
     ROk (AOther true) (skip1 s3))
   else if tag_is tag "e" then ROk (AOther true) s
   else default_decode sh tag s.
@@ -899,7 +913,7 @@ Fixpoint dec_tag (fuel : nat) (sh : shape) (tag : byte) (s : st) : out aval :=
             does nothing once Error is set; only pointer destinations are allocated *)
          if stuck s' then ROk ANil (add_steps (add_alloc s' (stuck_alloc sh')) 1)
          else let '(t, s1) := next_byte s' in dec_tag f sh' t s1)
-      (dec_tag f) sh tag (add_steps s 1)
+      (dec_tag f) f sh tag (add_steps s 1)
   end.
 
 (* dec.Decode(p): NextByte, decode *)
@@ -993,7 +1007,7 @@ Definition decode_arguments (fuel : nat) (missing : bool) (m : method) (s : st) 
     let '(n, s3) := read_int s2 in
     bnd (counted MArgs 32 true n s3) (fun n' s4 =>
     let s5 := add_ref s4 (RPtr (SSlice SIface)) in
-    bnd (args_loop fuel (loop_fuel s5) m 0 n' s5) (fun _ s6 =>
+    bnd (args_loop fuel fuel m 0 n' s5) (fun _ s6 =>
     let s7 := skip1 s6 in ROk (has_err s7) s7)).
 
 Definition tilde : bytes := ["~"]%byte.
@@ -1044,7 +1058,8 @@ Definition client_decode (fuel : nat) (rts : list shape) (bs : bytes) : out bool
       if tag_is t "a" then
         let '(n, s3) := read_int s2 in
         let s4 := add_ref s3 RNil in
-        bnd (results_loop fuel rts n s4) (fun _ s5 => ROk (has_err s5) s5)
+        bnd (results_loop fuel rts n s4) (fun _ s5 =>
+        if (n <? 0)%Z then RHaz HClientCount s5 (ROk true (set_error s5 KDecode)) else ROk (has_err s5) s5)
       else bnd (dec_tag fuel sh t (add_alloc s2 (size sh))) (fun _ s3 => ROk (has_err s3) s3)
     end)
   else if tag_is tag "E" then bnd (dec_val fuel SString s) (fun _ s1 => ROk true s1)
